@@ -14,14 +14,16 @@ class Gen:
   """Keeps a light shadow of what exists so that ids are mostly live (70 %), sometimes
   deleted (20 %) or never existing (10 %).  The shadow only steers the distribution."""
 
-  def __init__(self, rng, owners=('o',), sids=('s',), clients=('w1', 'w2'), weights=None):
+  def __init__(self, rng, owners=('o',), sids=('s',), clients=('w1', 'w2'), weights=None, fail_rate=0.16):
     self.rng = rng
     self.owners, self.sids, self.clients = list(owners), list(sids), list(clients)
     self.live = {}      # (o,s) -> list of ids believed live
     self.dead = {}      # (o,s) -> ids deleted
     self.next_id = {}   # (o,s) -> next id guess
     self.tok = 0
+    self.fail_rate = fail_rate
     self.shadow_trials = None   # (o,s) -> {state: [ids]} read from a shadow RAM servicer
+    self.shadow_state = {}      # (o,s) -> study state
     self.weights = weights or {
         'createStudy': 3, 'getStudy': 1, 'listStudies': 1, 'deleteStudy': 1, 'setStudyState': 2,
         'createTrial': 5, 'suggest': 9, 'getOperation': 1, 'getTrial': 1, 'listTrials': 1,
@@ -77,9 +79,9 @@ class Gen:
   def alg(self, count):
     r = self.rng
     x = r.random()
-    if x < 0.08:
+    if x < self.fail_rate / 2:
       return {'kind': 'rpc'}
-    if x < 0.16:
+    if x < self.fail_rate:
       return {'kind': 'other'}
     n = max(0, count + r.choice([-2, -1, 0, 0, 0, 0, 1, 2, 3]))
     sugg = [{'params': self.fresh(), 'md': [self.kv()] if r.random() < 0.3 else []} for _ in range(n)]
@@ -106,6 +108,8 @@ class Gen:
       o, s = self.pick_study()
     key = (o, s)
     base = {'owner': o, 'sid': s}
+    if op != 'createStudy' and self.shadow_state.get(key) in ('INACTIVE', 'COMPLETED') and r.random() < 0.5:
+      return dict(base, op='setStudyState', state='ACTIVE')     # re-open: keep the history productive
     if op == 'createStudy':
       d = dict(base, op=op, display=s if r.random() < 0.95 else '', spec=r.randrange(0, 3),
                state=r.choices(SSTATES, weights=[8, 4, 1, 1])[0], md=[self.kv()] if r.random() < 0.3 else [])
@@ -154,7 +158,7 @@ class Gen:
       return dict(base, op=op, id=tid)
     if op == 'checkEarlyStop':
       x = r.random()
-      if x < 0.15:
+      if x < max(0.15, self.fail_rate):
         es = {'kind': 'raise'}
       else:
         ds = [[tid, r.random() < 0.5]] if r.random() < 0.85 else []
@@ -181,6 +185,7 @@ class Gen:
       rr.step(rq)
       snap = rr.snapshot()
       self.shadow_trials = {}
+      self.shadow_state = {(st['owner'], st['sid']): st['state'] for st in snap['studies']}
       for st in snap['studies']:
         d = {}
         for t in st['trials']:
